@@ -296,7 +296,7 @@ def expected_with_failures(cfg) -> Optional[List[Any]]:
     if bs is None:
         return [("error", "ValueError") if x in fail else (("error", "KeyError") if x in cfail else ("item", x)) for x in order] + [("stop",)]
     out = []
-    for i in range(0, n, bs):
+    for i in range(0, len(order), bs):
         b = order[i:i + bs]
         if len(b) < bs and dl:
             break
@@ -331,6 +331,18 @@ def check_c10(ctx: Ctx, job):
             loader = sdl.build(cfg)
             if pre is not None:
                 loader.load_state_dict(pre)
+            first = None
+            if job.get("sd_first"):
+                # state_dict() before the first iteration starts the workers too: the start-up failure must
+                # surface there, and again (same type) at the following iter()
+                s.begin_op()
+                try:
+                    loader.state_dict()
+                    first = ("no-error-at-state_dict",)
+                except RuntimeError:
+                    first = ("error", "RuntimeError")
+                except Exception as e:
+                    first = ("error", type(e).__name__)
             s.begin_op()
             try:
                 it = iter(loader)
@@ -345,8 +357,10 @@ def check_c10(ctx: Ctx, job):
             del loader
             gc.collect()
         ctx.case("ko_c10_init", [cfg, pol], True)
-        if outcome != ("error", "RuntimeError"):
-            ctx.fail("C10:init_error", job, f"worker_init_fn raising RuntimeError in worker(s) {cfg['init_fail']}: consumer observed {outcome}")
+        if first is not None and first != ("error", "RuntimeError"):
+            ctx.fail("C10:init_error", job, f"worker_init_fn raising RuntimeError in worker(s) {cfg['init_fail']}: state_dict() before iteration observed {first}")
+        elif outcome != ("error", "RuntimeError"):
+            ctx.fail("C10:init_error", job, f"worker_init_fn raising RuntimeError in worker(s) {cfg['init_fail']}: consumer observed {outcome}" + (f" (after state_dict() raised {first})" if first else ""))
         return
     want = want1 + want1  # two epochs
     sess = session_for(pol, seed, cfg["W"])
@@ -418,7 +432,8 @@ def gen_c10(ctx: Ctx, n: int):
             cfg["init_fail"] = [ctx.rng.randrange(cfg["W"])]
         job = {"cfg": cfg, "seed": ctx.rng.randrange(1 << 30), "policy": ctx.rng.choice(POLICIES)}
         if cfg.get("init_fail"):
-            job["preload"] = ctx.rng.random() < 0.6
+            job["preload"] = ctx.rng.random() < 0.5
+            job["sd_first"] = (not job["preload"]) and ctx.rng.random() < 0.6
         jobs.append(job)
     return jobs
 
